@@ -138,8 +138,9 @@ func RuleTransport(r *Report, p *Program, rules aspectSet) {
 		"T9":  "a connection never escapes the call that opened it (not stored, sent or returned)",
 		"T10": "slices returned to the caller are views of buffers allocated inside that call",
 		"A2d": "each driver send method writes the request exactly once per call",
+		"T11": "the reply a driver method returns is exactly the bytes of its last read: buffer[0:n] with n the count that read returned, from a buffer large enough to expose over-long datagrams",
 	}
-	mins := map[string]int{"T1": 5, "T2": 3, "T3": 4, "T4": 4, "T5": 4, "T6": 4, "T9": 5, "T10": 3, "A2d": 4}
+	mins := map[string]int{"T1": 5, "T2": 3, "T3": 4, "T4": 4, "T5": 4, "T6": 4, "T9": 5, "T10": 3, "A2d": 4, "T11": 3}
 	for id := range rules {
 		if d, ok := doc[id]; ok {
 			r.Rule(id, d, mins[id])
@@ -148,6 +149,7 @@ func RuleTransport(r *Report, p *Program, rules aspectSet) {
 	for _, sf := range fns {
 		pos := p.Pos(sf.Fn.Pos())
 		t1, t2, t3, t4, t5, t6, t9, t10, a2 := "", "", "", "", "", "", "", "", ""
+		t11 := ""
 		lockedPaths, unlockedPaths := 0, 0
 		for _, pa := range sf.Paths {
 			if pa.Outcome != "return" && pa.Outcome != "truncated" {
@@ -161,11 +163,12 @@ func RuleTransport(r *Report, p *Program, rules aspectSet) {
 			unlockDefers := evIdx(pa, func(e Event) bool {
 				return e.Kind == "defer" && strings.HasSuffix(e.Name, "sync.Mutex).Unlock") && isGlobalRef(e.Args[0])
 			})
-			portFixed, portKnown := false, false
+			portFixed, portKnown, portZero := false, false, false
 			for k, v := range pa.State.Ints {
 				if strings.HasSuffix(k, ".Port") {
 					portKnown = true
-					portFixed = !v.Intersect(IntervalSet{{0, 0}}).Equal(v) && v.Intersect(IntervalSet{{0, 0}}).Empty()
+					portFixed = v.Intersect(IntervalSet{{0, 0}}).Empty()
+					portZero = v.Equal(IntervalSet{{0, 0}})
 				}
 			}
 			if !sf.Listen && openIdx >= 0 {
@@ -182,8 +185,8 @@ func RuleTransport(r *Report, p *Program, rules aspectSet) {
 					}
 				} else {
 					unlockedPaths++
-					if portKnown && portFixed {
-						t3 = "socket opened on a fixed bind port without holding the lock"
+					if portKnown && !portZero {
+						t3 = "socket opened without the lock although the bind port may be non-zero (port region " + portRegion(pa) + ")"
 					}
 					if !portKnown && !bindNil(pa) {
 						t3 = "bind port never examined before opening the socket"
@@ -242,7 +245,8 @@ func RuleTransport(r *Report, p *Program, rules aspectSet) {
 				} else if len(oe.Deep) > 1 {
 					local = oe.Deep[1]
 				}
-				if !(strings.Contains(local, "u.bindAddr") || (strings.Contains(local, "net.IPv4(0,0,0,0)") && bindNil(pa))) {
+				anyAddr := strings.Contains(local, "net.IPv4(0,0,0,0)") || strings.Contains(local, "IP:[0,0,0,0,0,0,0,0,0,0,255,255,0,0,0,0],Port:0") || strings.Contains(local, "IP:[0,0,0,0],Port:0")
+				if !(strings.Contains(local, "u.bindAddr") || (anyAddr && bindNil(pa))) {
 					t6 = "local address of the socket is " + cut(local, 120) + ", not derived from the configured bind address"
 				}
 			}
@@ -303,6 +307,31 @@ func RuleTransport(r *Report, p *Program, rules aspectSet) {
 					}
 				}
 			}
+			// ---- T11 the returned reply is what the last read delivered
+			if pa.Outcome == "return" && len(pa.Results) == 2 && len(reads) > 0 && !returnsList(sf.Fn) && errNilness(pa, pa.Results[1]) != 0 {
+				last := pa.Events[reads[len(reads)-1]]
+				res := pa.Results[0]
+				okShape := false
+				if res.Op == "slice" && res.Args[0].Op == "sref" && len(last.Args) >= 2 && last.Args[1].Op == "sref" && res.Args[0].Cell == last.Args[1].Cell {
+					lo0 := res.Args[1] == nil
+					if !lo0 {
+						if v, ok := res.Args[1].Int64(); ok && v == 0 {
+							lo0 = true
+						}
+					}
+					if lo0 && res.Args[2] != nil && res.Args[2].String() == last.Result.String()+"#0" {
+						okShape = true
+						lo, _ := last.Args[1].Args[0].Int64()
+						hi, _ := last.Args[1].Args[1].Int64()
+						if hi-lo <= 64 {
+							t11 = fmt.Sprintf("the receive buffer handed to the read is only %d bytes: a longer datagram is silently truncated to a well-formed length", hi-lo)
+						}
+					}
+				}
+				if !okShape {
+					t11 = "the returned reply is not buffer[0:n] of the last read: " + cut(res.String(), 100)
+				}
+			}
 			// ---- T9 ownership, T10 buffers
 			for _, e := range pa.Events {
 				if (e.Kind == "store" || e.Kind == "send" || e.Kind == "mapupdate") && len(e.Args) > 1 && strings.Contains(e.Args[len(e.Args)-1].String(), conn) {
@@ -342,11 +371,34 @@ func RuleTransport(r *Report, p *Program, rules aspectSet) {
 		if !sf.Listen && (lockedPaths == 0 || unlockedPaths == 0) && t3 == "" {
 			t3 = fmt.Sprintf("expected both a locked (fixed port) and an unlocked (port 0) class of paths, found %d/%d", lockedPaths, unlockedPaths)
 		}
+		if rules["T2"] && returnsList(sf.Fn) {
+			// the collector: after starting the reader the caller waits exactly the configured timeout
+			bad := ""
+			n := 0
+			for _, pa := range sf.Paths {
+				gos := evIdx(pa, func(e Event) bool { return e.Kind == "go" })
+				if len(gos) == 0 || pa.Outcome != "return" {
+					continue
+				}
+				n++
+				sl := evIdx(pa, func(e Event) bool { return isCall(e, "time.Sleep") })
+				if len(sl) != 1 || sl[0] < gos[0] || pa.Events[sl[0]].Args[0].String() != "u.timeout" {
+					bad = "after starting the reply collector the call does not wait exactly the configured timeout before returning"
+					if len(sl) == 1 {
+						bad += " (waits " + pa.Events[sl[0]].Args[0].String() + ")"
+					}
+				}
+			}
+			r.Check(bad == "" && n > 0, "T2", sf.Name+":collect-window", pos, "time.Sleep(u.timeout) after the reader is started", bad)
+		}
 		emit := func(rule, bad string) {
 			if !rules[rule] {
 				return
 			}
-			if sf.Listen && (rule == "T2" || rule == "T3" || rule == "T4" || rule == "T5" || rule == "T6" || rule == "T10" || rule == "A2d") {
+			if rule == "T11" && returnsList(sf.Fn) {
+				return
+			}
+			if sf.Listen && (rule == "T2" || rule == "T3" || rule == "T4" || rule == "T5" || rule == "T6" || rule == "T10" || rule == "A2d" || rule == "T11") {
 				return
 			}
 			r.Check(bad == "", rule, sf.Name, pos, fmt.Sprintf("%d paths (%d loop-bounded)", len(sf.Paths), sf.Trunc), bad)
@@ -360,10 +412,20 @@ func RuleTransport(r *Report, p *Program, rules aspectSet) {
 		emit("T9", t9)
 		emit("T10", t10)
 		emit("A2d", a2)
+		emit("T11", t11)
 	}
 }
 
 func (s IntervalSet) Equal(o IntervalSet) bool { return s.String() == o.String() }
+
+func portRegion(pa Path) string {
+	for k, v := range pa.State.Ints {
+		if strings.HasSuffix(k, ".Port") {
+			return v.String()
+		}
+	}
+	return "?"
+}
 
 func isGlobalRef(t *Term) bool {
 	return t != nil && t.Op == "ptr" && t.Cell != nil && t.Cell.Sym && t.Cell.Val != nil && t.Cell.Val.Op == "global" && len(t.Path) == 0
